@@ -116,6 +116,14 @@ type Gen struct {
 	facts        map[string]string // labelled ghost assertions (guarded formulas)
 	boolDef      map[int]bool      // prefix lines kept in sliced contexts: definitions and type-range facts
 	marks        map[string]int    // named positions in the prefix
+	ghostSorts   map[string]string
+}
+
+func (g *Gen) ghostSortOf(name string) string {
+	if s, ok := g.ghostSorts[name]; ok {
+		return s
+	}
+	return "Int"
 }
 
 func (g *Gen) keepLine() {
@@ -475,6 +483,17 @@ func (g *Gen) globalObj(x *ssa.Global) string {
 			g.keepLine()
 			g.assumeRaw(fmt.Sprintf("(=> (= %s %s) (= %s 0))", pv.S[0], o, pv.S[1]))
 		}
+		var pelem types.Type
+		switch u := pv.T.Underlying().(type) {
+		case *types.Pointer:
+			pelem = u.Elem()
+		case *types.Slice:
+			pelem = u.Elem()
+		}
+		if pelem != nil && g.view.opaqueSort(pv.T) == "" && !g.typeContains(gelem, pelem) && len(pv.S) >= 2 {
+			g.keepLine()
+			g.assumeRaw(fmt.Sprintf("(not (= %s %s))", pv.S[0], o))
+		}
 	}
 	if x.Pkg != nil && strings.HasPrefix(x.Pkg.Pkg.Path(), repoMod) {
 		elem := x.Type().Underlying().(*types.Pointer).Elem()
@@ -572,6 +591,12 @@ func (g *Gen) run() {
 
 	// lets + requires
 	env := g.entryEnv()
+	if env.pkg != nil {
+		for _, c := range g.eng.cs.PkgInv[env.pkg.Pkg.Path()] {
+			g.assumeRaw(g.specBool(env, c.E))
+			g.assumedUsed["package invariant (established by init, preserved because nothing writes the variable: C13 sweep): "+c.Text] = true
+		}
+	}
 	for _, l := range g.ct.Lets {
 		v := g.specVal(env, l.E)
 		if v != nil {
@@ -636,6 +661,7 @@ func (g *Gen) wellFormed(v *Val, nextobj string, nilable bool) string {
 	if _, ok := v.T.Underlying().(*types.Slice); ok {
 		// nil slice has len 0; cap >= len
 		ps = append(ps, fmt.Sprintf("(<= %s %s)", v.S[2], v.S[3]))
+		ps = append(ps, fmt.Sprintf("(< %s 9223372036854775808)", v.S[3]))
 		ps = append(ps, fmt.Sprintf("(or (>= %s 1) (= %s 0))", v.S[0], v.S[3]))
 	}
 	if isPtr && nilable {
@@ -667,6 +693,10 @@ func (g *Gen) typedDisjointness(vs []*Val) string {
 	for i := 0; i < len(ps); i++ {
 		for j := i + 1; j < len(ps); j++ {
 			if !types.Identical(ps[i].elem, ps[j].elem) {
+				// different types, neither a component of the other: the cells cannot overlap
+				if !g.typeContains(ps[i].elem, ps[j].elem) && !g.typeContains(ps[j].elem, ps[i].elem) {
+					out = append(out, fmt.Sprintf("(not (= %s %s))", ps[i].obj, ps[j].obj))
+				}
 				continue
 			}
 			sz := g.lay.Size(ps[i].elem)
@@ -677,6 +707,27 @@ func (g *Gen) typedDisjointness(vs []*Val) string {
 		}
 	}
 	return and(out...)
+}
+
+// typeContains: a value of type a has a component of type b (through arrays and struct fields).
+func (g *Gen) typeContains(a, b types.Type) bool {
+	if types.Identical(a, b) {
+		return true
+	}
+	if g.view.opaqueSort(a) != "" {
+		return false
+	}
+	switch u := a.Underlying().(type) {
+	case *types.Array:
+		return g.typeContains(u.Elem(), b)
+	case *types.Struct:
+		for i := 0; i < u.NumFields(); i++ {
+			if g.typeContains(u.Field(i).Type(), b) {
+				return true
+			}
+		}
+	}
+	return false
 }
 
 // ---------- CFG helpers ----------
@@ -813,7 +864,7 @@ func (g *Gen) walkBlock(b *ssa.BasicBlock) {
 		ng := map[string]string{}
 		for k := range g.states[entryPreds[0]].ghost {
 			k := k
-			ng[k] = g.joinTerms(entryPreds, conds, func(st *blockState) string { return st.ghost[k] }, "gh_"+k, g.eng.ghostSort(k))
+			ng[k] = g.joinTerms(entryPreds, conds, func(st *blockState) string { return st.ghost[k] }, "gh_"+k, g.ghostSortOf(k))
 		}
 		g.ghost = ng
 
